@@ -131,7 +131,7 @@ Fixpoint pack_node (fuel : nat) (src dst : list str) (chain : list str) (p : lis
                         match r with
                         | Dir _ _ _ =>
                             if existsb (str_eqb abs) chain then inr PackErr
-                            else pack_node fuel' (comps_of abs) p (chain ++ [abs]) (comps_of abs) r a
+                            else pack_node fuel' (comps_of abs) (dst ++ sub1) (chain ++ [abs]) (comps_of abs) r a
                         | File d pm mt => inl (emit a (mkPE name ty_reg [] pm (mtime_of mt) d))
                         | _ => inl a
                         end
